@@ -26,6 +26,7 @@ type LoopCtx struct {
 	Card      string
 	KeyT      types.Type
 	Vars      map[string]TV // loop variables by source name
+	Prev      map[string]TV // loop-carried variables at the head of the current iteration (prev(x))
 }
 
 type Env struct {
@@ -606,6 +607,10 @@ func (env *Env) evalHash(e *EHash) TV {
 		// relative position j <-> absolute position off+j
 		return TV{V: vInt(mkApp("-", mkApp(f, mkApp("+", env.sort.off, env.evalInt(e.Args[0]))), env.sort.off)), T: untypedInt}
 	}
+	if env.loop == nil && e.Name == "i" && env.ex.discover > 0 {
+		// write discovery runs the loop body before the loop context exists; the value is irrelevant there
+		return TV{V: vInt(env.ex.sc.Fresh("discover.i", SInt)), T: untypedInt}
+	}
 	if env.loop == nil {
 		efail("#%s outside a loop invariant", e.Name)
 	}
@@ -671,7 +676,9 @@ func (env *Env) evalCall(e *ECall) TV {
 			ex.sc.Assume(fmt.Sprintf("(forall ((n Int)) (! (=> (> n 0) (= (%s n) (+ (%s (- n 1)) (ite %s 1 0)))) :pattern ((%s n))))", f, f, at("(- n 1)"), f))
 			ex.sc.Assume(fmt.Sprintf("(forall ((n Int)) (! (=> (>= n 0) (and (<= 0 (%s n)) (<= (%s n) n))) :pattern ((%s n))))", f, f, f))
 			// some element satisfies P iff the count is positive (consequence by induction)
-			ex.sc.Assume(fmt.Sprintf("(forall ((n Int) (j Int)) (! (=> (and (<= 0 j) (< j n) %s) (> (%s n) 0)) :pattern ((%s n) %s)))", at("j"), f, f, firstApp(at("j"))))
+			if pt := firstApp(at("j")); pt != "" {
+				ex.sc.Assume(fmt.Sprintf("(forall ((n Int) (j Int)) (! (=> (and (<= 0 j) (< j n) %s) (> (%s n) 0)) :pattern ((%s n) %s)))", at("j"), f, f, pt))
+			}
 		}
 		return TV{V: vInt(mkApp(f, n)), T: untypedInt}
 	case "len":
@@ -788,15 +795,42 @@ func (env *Env) evalCall(e *ECall) TV {
 			efail("sent() of a non-channel")
 		}
 		return TV{V: vInt(mkSelect(ex.get(env.st, chSentKey(x.T), SArr(SInt, SInt)), x.V.T)), T: untypedInt}
-	case "lastsent":
+	case "prev":
+		// prev(x): the value the loop-carried local x had at the head of the current iteration;
+		// a local the loop never assigns has the same value throughout
+		id, ok := e.Args[0].(*EIdent)
+		if !ok || len(e.Args) != 1 {
+			efail("prev(x): x must be a local variable")
+		}
+		if env.loop != nil && env.loop.Prev != nil {
+			if tv, ok := env.loop.Prev[id.Name]; ok {
+				return tv
+			}
+		}
+		if (env.loop == nil || env.loop.Prev == nil) && ex.discover == 0 {
+			efail("prev(%s) outside a loop step clause or call-site assertion inside a loop", id.Name)
+		}
+		return env.evalIdent(id.Name)
+	case "received":
+		x := env.eval(e.Args[0])
+		ct, ok := x.T.Underlying().(*types.Chan)
+		if !ok {
+			efail("received() of a non-channel")
+		}
+		return TV{V: vInt(mkSelect(ex.get(env.st, "CH.recv."+typeKey(ct.Elem()), SArr(SInt, SInt)), x.V.T)), T: untypedInt}
+	case "lastsent", "lastreceived":
 		x := env.eval(e.Args[0])
 		if ct, ok := x.T.Underlying().(*types.Chan); ok {
 			et := ct.Elem()
+			pref := "CH.last."
+			if e.Fn == "lastreceived" {
+				pref = "CH.lastrecv."
+			}
 			{
 				ls := leavesOf(et)
 				ts := make([]string, len(ls))
 				for i, l := range ls {
-					key := "CH.last." + typeKey(et) + "." + l.Path
+					key := pref + typeKey(et) + "." + l.Path
 					ex.kinds[key] = l.Kind
 					ex.leafTyp[key] = l.Typ
 					ts[i] = mkSelect(ex.get(env.st, key, SArr(SInt, l.Sort)), x.V.T)
@@ -1051,17 +1085,22 @@ func (env *Env) modLocs(e Expr) []ModLoc {
 		}
 		efail("modifies x[i]: x must be a slice")
 	case *ECall:
-		if e.Fn == "sent" {
+		if e.Fn == "sent" || e.Fn == "received" {
 			x := env.eval(e.Args[0])
 			if _, ok := x.T.Underlying().(*types.Chan); !ok {
 				efail("sent() of a non-channel")
 			}
 			sk := chSentKey(x.T)
+			pref := "CH.last."
+			if e.Fn == "received" {
+				sk = "CH.recv." + typeKey(x.T.Underlying().(*types.Chan).Elem())
+				pref = "CH.lastrecv."
+			}
 			ex.get(env.st, sk, SArr(SInt, SInt))
 			out := []ModLoc{{Key: sk, Sort: SArr(SInt, SInt), Idx: []string{x.V.T}}}
 			if ct, ok := x.T.Underlying().(*types.Chan); ok {
 				for _, l := range leavesOf(ct.Elem()) {
-					key := "CH.last." + typeKey(ct.Elem()) + "." + l.Path
+					key := pref + typeKey(ct.Elem()) + "." + l.Path
 					ex.kinds[key] = l.Kind
 					ex.leafTyp[key] = l.Typ
 					ex.get(env.st, key, SArr(SInt, l.Sort))
@@ -1105,8 +1144,34 @@ func (env *Env) modLocs(e Expr) []ModLoc {
 
 // firstApp returns a sub-term usable as a pattern (the first application
 // containing the bound variable position), falling back to the whole term.
+// firstApp picks a sub-term of t usable in a quantifier pattern: the first application whose head is not
+// a logical or arithmetic connective and that mentions the bound variable j.
 func firstApp(t string) string {
-	return t
+	banned := map[string]bool{"or": true, "and": true, "not": true, "=>": true, "=": true, "<=": true, "<": true, ">=": true, ">": true,
+		"+": true, "-": true, "*": true, "ite": true, "distinct": true, "div": true, "mod": true}
+	var pick func(t string) string
+	pick = func(t string) string {
+		head, args := sexprArgs(t)
+		if head == "" {
+			return ""
+		}
+		if !banned[head] {
+			if strings.Contains(t, " j)") || strings.Contains(t, " j ") {
+				return t
+			}
+			return ""
+		}
+		for _, a := range args {
+			if r := pick(a); r != "" {
+				return r
+			}
+		}
+		return ""
+	}
+	if r := pick(t); r != "" {
+		return r
+	}
+	return ""
 }
 
 // addrOf computes the address of an lvalue expression (x.f, x.f.g, *p, s[i]).
